@@ -1,5 +1,6 @@
 (** C35 — the data recorder persists every entry exactly once.  Theorems only. *)
-From Akita Require Import Lib.Base Lib.Lts C35.Model C35.Proofs C35.Proofs2.
+From Coq Require Import Permutation.
+From Akita Require Import Lib.Base Lib.Lts C35.Model C35.Proofs C35.Proofs2 C35.Proofs3.
 Local Open Scope N_scope.
 
 (** Sequential sessions.  For every set of tables (any shapes), every batch size,
@@ -68,7 +69,42 @@ Proof.
 Qed.
 Print Assumptions c35_concurrent_old_refuted.
 
-(** AFTER the fix (InsertData and the flush it triggers run under t.mu): three
+(** AFTER the fix, in general: ANY number of goroutines, each making ANY list of
+    InsertData / Flush calls (well-formed: existing table, entry of the table's
+    shape, storable values), any batch size, EVERY schedule oracle.  No panic is
+    reachable (no BEGIN inside a transaction, no COMMIT without one); whenever the
+    connection is inside a transaction the mutex is held and the goroutine between
+    BEGIN and COMMIT is the only one not idle; the recorder state is the SEQUENTIAL
+    recorder applied to the completed calls in the order their effects took place
+    (linearizability), and completed + pending calls = all calls. *)
+Theorem c35_concurrent_fixed : forall shapes batch progs o,
+  NoDup (map fst shapes) -> Forall (Forall (op_ok shapes)) progs ->
+  let s := run g_step o (g_init shapes batch progs) in
+  g_panic s = false /\
+  (g_txn s = true -> g_mu s = true /\
+     exists a pc prog b, g_ths s = a ++ (pc, prog) :: b /\ Forall idle a /\ Forall idle b /\ in_txn pc = true) /\
+  run_ops (g_lin s) (rec_init shapes batch) = Some (g_rec s) /\
+  Permutation (g_lin s ++ concat (map pend (g_ths s))) (concat progs).
+Proof. exact concurrent_fixed. Qed.
+Print Assumptions c35_concurrent_fixed.
+
+(** ... and when every goroutine has finished and Close (the final flush, any
+    iteration order) has run, each table holds exactly the multiset of the entries
+    inserted into it by all goroutines — each exactly once, every non-ignored field
+    unchanged, nothing left in a buffer. *)
+Theorem c35_concurrent_fixed_exactly_once : forall shapes batch progs o ord,
+  NoDup (map fst shapes) -> Forall (Forall (op_ok shapes)) progs ->
+  Forall (Forall (covers (map fst shapes))) progs -> (forall n, In n (map fst shapes) -> In n ord) ->
+  let s := run g_step o (g_init shapes batch progs) in
+  g_all_done s ->
+  exists s', flush ord (g_rec s) = Some s' /\
+    forall n t, tab_get n (r_tabs s') = Some t ->
+      t_buf t = [] /\
+      Permutation (map (resolve (r_locrows s')) (t_rows t)) (map proj (inserted n (concat progs))).
+Proof. exact concurrent_fixed_exactly_once. Qed.
+Print Assumptions c35_concurrent_fixed_exactly_once.
+
+(** Regression example (the coarse 3-goroutine model, exhaustive): three
     inserting goroutines, every batch size 1..4, EVERY schedule of length 6 over the
     three goroutines (exhaustive, finite domain — each goroutine has two steps and a
     disabled choice stutters): every entry of a finished goroutine is in rows ++
@@ -96,6 +132,30 @@ Print Assumptions c35_concurrent_fixed_3.
 
 (** Non-vacuity: two tables sharing location strings, batch size 2, flush orders
     alternating between the two map iteration orders. *)
+(** Non-vacuity of the concurrent theorems: three goroutines (two tables, shared
+    location strings, batch size 2) under a round-robin schedule all finish. *)
+Definition cv_shapes : list (N * list ftag) := [(0, [TPlain; TLoc]); (1, [TLoc; TPlain])].
+Definition cv_progs : list (list op) :=
+  [[OInsert 0 [(TPlain, VInt 1); (TLoc, VStr [65])] [0; 1]; OInsert 1 [(TLoc, VStr [66]); (TPlain, VInt 2)] [0; 1]];
+   [OInsert 1 [(TLoc, VStr [65]); (TPlain, VInt 3)] [0; 1]; OFlush [0; 1]];
+   [OInsert 0 [(TPlain, VInt 4); (TLoc, VStr [66])] [0; 1]]].
+
+Example c35_concurrent_nonvacuous :
+  NoDup (map fst cv_shapes) /\ Forall (Forall (op_ok cv_shapes)) cv_progs /\
+  Forall (Forall (covers (map fst cv_shapes))) cv_progs /\
+  (let s := run g_step (concat (repeat [0; 1; 2]%nat 40)) (g_init cv_shapes 2 cv_progs) in
+   g_ths s = [(GIdle, []); (GIdle, []); (GIdle, [])] /\ g_panic s = false /\ length (g_lin s) = 5%nat).
+Proof.
+  split; [repeat constructor; cbn; intuition congruence|].
+  split.
+  - repeat constructor; cbn; eexists; (split; [|split]);
+      try (left; reflexivity); try (right; left; reflexivity); try reflexivity;
+      intros sh' [H|[H|[]]]; inversion H; reflexivity.
+  - split.
+    + repeat (apply Forall_cons || apply Forall_nil); cbn; try (intros n [H|[H|[]]]; subst; auto).
+    + vm_compute. repeat split; reflexivity.
+Qed.
+
 Example c35_nonvacuous :
   let shapes := [(0, [TPlain; TLoc; TIgnore]); (1, [TLoc; TPlain; TLoc])] in
   let ops := [OInsert 0 [(TPlain, VInt 1); (TLoc, VStr [65]); (TIgnore, VInt 9)] [1; 0];
